@@ -213,10 +213,10 @@ def e2sInit : List String :=
 def e2sStartTestRun : List String :=
   ["def(self):",
    "  super().startTestRun()",
-   "  self._tags = TagContext()",
-   "  self.shouldStop = False",
    "  self.__now = None",
-   "  self._started = True"]
+   "  self._started = True",
+   "  self._tags = TagContext()",
+   "  self.shouldStop = False"]
 
 def e2sGetFailfast : List String :=
   ["def(self):",
@@ -246,14 +246,8 @@ def etodAdd : List (String × List String) :=
    ("addUnexpectedSuccess", ["getattr-probe", "addFailure(synthetic)", "no-check", "details-first", "drop", "bare", "failfast-stop"])]
 
 def etodCheckArgs : List String :=
-  ["def(self, a0, a1):",
-   "  v0 = 0",
-   "  if a0 is not None:",
-   "    v0 += 1",
-   "  if a1 is not None:",
-   "    v0 += 1",
-   "  if v0 != 1:",
-   "    raise ValueError(\"Must pass only one of err '%s' and details '%s\" % (a0, a1))"]
+  ["exactly-one a0 a1",
+   "raise ValueError"]
 
 def etodDetailsToExcInfo : List String :=
   ["def(self, a0):",
@@ -436,8 +430,7 @@ def gatherDetails : List String :=
    "    v3 = itertools.count(1)",
    "    while v2 in a1:",
    "      v2 = '%s-%d' % (v0, next(v3))",
-   "    v0 = v2",
-   "    a1[v0] = _copy_content(v1)"]
+   "    a1[v2] = _copy_content(v1)"]
 
 def onException : List String :=
   ["def(self, a0, a1='traceback'):",
@@ -452,8 +445,8 @@ def gotUserException : List String :=
    "    for v0 in a0[1].args:",
    "      self._got_user_exception(v0, a1)",
    "    return self.exception_caught",
+   "  v1 = a0[1]",
    "  try:",
-   "    v1 = a0[1]",
    "    self.case.onException(a0, tb_label=a1)",
    "  finally:",
    "    del a0",
@@ -478,10 +471,10 @@ def caseReset : List String :=
   ["def(self):",
    "  self._cleanups = []",
    "  self._unique_id_gen = itertools.count(1)",
-   "  self._traceback_id_gens = {}",
+   "  self.__details = None",
    "  self.__setup_called = False",
    "  self.__teardown_called = False",
-   "  self.__details = None"]
+   "  self._traceback_id_gens = {}"]
 
 def expectFailure : List String :=
   ["def(self, a0, a1, *a2, **a3):",
